@@ -28,8 +28,8 @@
    Not proved: that the tracer + transform always produce closed outputs (no model of
    resolve_deps_with_namespace / the SWC transform); clause 5 (source maps) is about
    SWC's emitter: checked per output, not proved. *)
-From DG Require Import Base.Util Base.Reach Model.Lattice Model.Closure Model.RunC09
-  Proofs.LatticeProofs Proofs.ClosureProofs.
+From DG Require Import Base.Util Base.Reach Model.Lattice Model.FcClosure Model.RunC09
+  Proofs.LatticeProofs Proofs.FcClosureProofs.
 
 (* ================= NamedSubset::extend ================= *)
 Theorem L_extend_wf : forall cur new cur' d,
